@@ -24,6 +24,8 @@ pub const K_EMPTYMAP: u8 = 4; // {}
 pub const K_BYTES: u8 = 5; // short ASCII string with symbolic bytes: len idx, bytes in w
 pub const K_NULL: u8 = 6;
 pub const K_OPTBOOL: u8 = 7; // null (idx = 0) or a bool b (idx = 1)
+pub const K_SEQ: u8 = 8; // sequence of idx (<= 2) short strings: w[0..3] / w[4..7], lengths in s2
+pub const K_OPTBYTES: u8 = 9; // null (b = false) or a short string (len idx, bytes w)
 
 #[derive(Clone, Copy, Debug)]
 pub struct Entry {
@@ -35,6 +37,8 @@ pub struct Entry {
     pub s: &'static str,
     pub idx: usize,
     pub w: [u8; SLEN],
+    /// K_SEQ: lengths of the two elements
+    pub l2: [usize; 2],
 }
 
 impl Entry {
@@ -47,6 +51,7 @@ impl Entry {
             s: "",
             idx: 0,
             w: [0; SLEN],
+            l2: [0; 2],
         }
     }
 }
@@ -96,6 +101,26 @@ impl MapScript {
         e.kind = K_BYTES;
         e.present = present;
         e.idx = len;
+        e.w = w;
+        self.add(e);
+    }
+    pub fn optbytes(&mut self, key: &'static str, some: bool, len: usize, w: [u8; SLEN]) {
+        let mut e = Entry::blank();
+        e.key = key;
+        e.kind = K_OPTBYTES;
+        e.present = true;
+        e.b = some;
+        e.idx = len;
+        e.w = w;
+        self.add(e);
+    }
+    pub fn seq2(&mut self, key: &'static str, n: usize, l2: [usize; 2], w: [u8; SLEN]) {
+        let mut e = Entry::blank();
+        e.key = key;
+        e.kind = K_SEQ;
+        e.present = true;
+        e.idx = n;
+        e.l2 = l2;
         e.w = w;
         self.add(e);
     }
@@ -201,6 +226,69 @@ impl<'de> Deserializer<'de> for OptBoolDe {
         } else {
             visitor.visit_none()
         }
+    }
+    fwd_all_but_option!();
+}
+
+pub struct OptStrDe {
+    pub some: bool,
+    pub len: usize,
+    pub w: [u8; SLEN],
+}
+impl<'de> Deserializer<'de> for OptStrDe {
+    type Error = DErr;
+    fn deserialize_any<Vis: Visitor<'de>>(self, visitor: Vis) -> R<Vis::Value> {
+        if self.some {
+            visitor.visit_string(string_of(self.len, &self.w))
+        } else {
+            visitor.visit_unit()
+        }
+    }
+    fn deserialize_option<Vis: Visitor<'de>>(self, visitor: Vis) -> R<Vis::Value> {
+        if self.some {
+            visitor.visit_some(StrDe(string_of(self.len, &self.w)))
+        } else {
+            visitor.visit_none()
+        }
+    }
+    fwd_all_but_option!();
+}
+
+/// sequence of up to two short strings
+pub struct Seq2De {
+    pub n: usize,
+    pub l2: [usize; 2],
+    pub w: [u8; SLEN],
+}
+pub struct Seq2Access {
+    d: Seq2De,
+    i: usize,
+}
+impl<'de> de::SeqAccess<'de> for Seq2Access {
+    type Error = DErr;
+    fn next_element_seed<T: DeserializeSeed<'de>>(&mut self, seed: T) -> R<Option<T::Value>> {
+        if self.i >= self.d.n || self.i >= 2 {
+            return Ok(None);
+        }
+        let mut b = [0u8; SLEN];
+        let off = self.i * 4;
+        let mut k = 0;
+        while k < 4 {
+            b[k] = self.d.w[off + k];
+            k += 1;
+        }
+        let len = self.d.l2[self.i];
+        self.i += 1;
+        seed.deserialize(StrDe(string_of(len, &b))).map(Some)
+    }
+}
+impl<'de> Deserializer<'de> for Seq2De {
+    type Error = DErr;
+    fn deserialize_any<Vis: Visitor<'de>>(self, visitor: Vis) -> R<Vis::Value> {
+        visitor.visit_seq(Seq2Access { d: self, i: 0 })
+    }
+    fn deserialize_option<Vis: Visitor<'de>>(self, visitor: Vis) -> R<Vis::Value> {
+        visitor.visit_some(self)
     }
     fwd_all_but_option!();
 }
@@ -394,6 +482,16 @@ impl<'de> MapAccess<'de> for ScriptMap {
             K_BYTES => seed.deserialize(StrDe(string_of(e.idx, &e.w))),
             K_OPAQUE => seed.deserialize(OpaqueDe { is_null: e.b }),
             K_NESTED => seed.deserialize(NestedDe(e.idx)),
+            K_OPTBYTES => seed.deserialize(OptStrDe {
+                some: e.b,
+                len: e.idx,
+                w: e.w,
+            }),
+            K_SEQ => seed.deserialize(Seq2De {
+                n: e.idx,
+                l2: e.l2,
+                w: e.w,
+            }),
             K_EMPTYMAP => seed.deserialize(EmptyMapDe),
             _ => seed.deserialize(NullDe),
         }
